@@ -26,6 +26,34 @@ pub enum Case {
     Constant { tokens: Vec<String>, description: String, numer: String, denom: String, entries: Vec<(String, i32, i32)>, source: Option<u64> },
     /// Shipped constant #i.
     Shipped { index: usize },
+    /// The identifier a derived unit had when /verif was pinned (harness/data/ids_pinned.json).
+    Pinned { variant: String, id: u32, singular: String, plural: String },
+}
+
+/// The committed identifier table: what data written by the pinned build contains.
+fn pinned_ids() -> Vec<Case> {
+    let path = format!("{}/harness/data/ids_pinned.json", crate::runner::verif_root());
+    let text = match std::fs::read_to_string(&path) {
+        Ok(t) => t,
+        Err(e) => {
+            println!("INCONCLUSIVE property=C17 cannot read {}: {}", path, e);
+            std::process::exit(2);
+        }
+    };
+    serde_json::from_str(&text).expect("ids_pinned.json holds a list of pinned cases")
+}
+
+/// `VERIF_EMIT_PINS=1 verif C17 --quick` prints the table for the current tree (used once, when pinning).
+fn emit_pins() {
+    let v = vocab();
+    let mut out = Vec::new();
+    for u in &v.units {
+        if let Some(id) = u.id {
+            let c: Compound = u.probe.parse().expect("documented name parses");
+            out.push(Case::Pinned { variant: u.variant.clone(), id, singular: c.display(false).to_string(), plural: c.display(true).to_string() });
+        }
+    }
+    println!("{}", serde_json::to_string_pretty(&out).unwrap());
 }
 
 fn unit_key_cbor(variant: &str) -> Option<(Cbor, UKey)> {
@@ -162,6 +190,34 @@ fn check(c: &Case) -> CaseReport {
                 roundtrip_constant(&c)?;
                 Ok((true, vec!["random-constant"]))
             }
+            Case::Pinned { variant, id, singular, plural } => {
+                // the identifier this unit had when /verif was pinned (data written by an earlier
+                // build carries it) must still decode, and to the unit its documented name denotes
+                let mut m = std::collections::BTreeMap::new();
+                m.insert(Cbor::Text("Derived".into()), Cbor::Integer(*id as i128));
+                let mut st = std::collections::BTreeMap::new();
+                st.insert(Cbor::Text("power".into()), Cbor::Integer(1));
+                st.insert(Cbor::Text("prefix".into()), Cbor::Integer(0));
+                let mut names = std::collections::BTreeMap::new();
+                names.insert(Cbor::Map(m), Cbor::Map(st));
+                let mut top = std::collections::BTreeMap::new();
+                top.insert(Cbor::Text("names".into()), Cbor::Map(names));
+                let decoded: Compound = serde_cbor::value::from_value(Cbor::Map(top)).map_err(|e| (format!("pinned-id-does-not-decode:{}", variant), format!("id {:#x}: {}", id, e)))?;
+                let (s1, p1) = (decoded.display(false).to_string(), decoded.display(true).to_string());
+                if s1 != *singular || p1 != *plural {
+                    return Err((format!("pinned-id-decodes-to-another-unit:{}", variant), format!("id {:#x} was `{}`/`{}` when pinned, now decodes to `{}`/`{}`", id, singular, plural, s1, p1)));
+                }
+                let v = vocab();
+                if let Some(u) = v.units.iter().find(|u| u.variant == *variant) {
+                    let parsed: Compound = u.probe.parse().map_err(|e: anything::Error| ("unit-name-does-not-parse".to_string(), e.to_string()))?;
+                    if parsed != decoded {
+                        return Err((format!("pinned-id-is-not-the-named-unit:{}", variant), format!("id {:#x} decodes to `{}`, the name `{}` parses to `{}` ({:?})", id, decoded, u.probe, parsed, mirror(&parsed))));
+                    }
+                } else {
+                    return Err((format!("pinned-unit-left-the-registry:{}", variant), format!("id {:#x}", id)));
+                }
+                Ok((true, vec!["pinned-identifier"]))
+            }
             Case::Shipped { index } => {
                 let f = &facts().all[*index];
                 let c: Constant = serde_cbor::value::from_value(f.raw.clone()).map_err(|e| ("shipped-constant-does-not-decode".to_string(), e.to_string()))?;
@@ -170,6 +226,14 @@ fn check(c: &Case) -> CaseReport {
                 for k in f.unit.keys() {
                     if vocab().by_key(k).is_none() {
                         return Err(("shipped-unit-outside-registry".into(), format!("{:?}", k)));
+                    }
+                    // ... and is one of the pinned identifiers (so its meaning is the pinned one, checked above)
+                    if let UKey::Derived(id) = k {
+                        static PINS: std::sync::OnceLock<std::collections::BTreeSet<u32>> = std::sync::OnceLock::new();
+                        let pins = PINS.get_or_init(|| pinned_ids().iter().filter_map(|c| if let Case::Pinned { id, .. } = c { Some(*id) } else { None }).collect());
+                        if !pins.contains(id) {
+                            return Err(("shipped-unit-not-a-pinned-identifier".into(), format!("{:#x}", id)));
+                        }
                     }
                 }
                 roundtrip_compound(&c.unit)?;
@@ -236,7 +300,11 @@ fn rational_case() -> impl Strategy<Value = Case> {
 }
 
 pub fn run_check(ctx: &Ctx) {
-    ctx.set_rule("exhaustive: all 86 registry units (name -> Compound -> CBOR -> back; the id written by the code equals the id documented in tools/gen/data.toml; a CBOR value hand-built from the documented id decodes to the same unit; ids pairwise distinct) and every shipped constant (decode, re-encode, decode, equal, byte-identical, unit ids inside the registry); generated: compounds of 1-6 units with prefixes -24..24 and powers -9..9 built from documented ids, rationals up to 2000 bits through CBOR and JSON, constants; non-trivial = derived unit / compound with >=2 units incl. a derived one / rational with >64-bit numerator / constant; distinct by case");
+    ctx.set_rule("exhaustive: all 86 registry units (name -> Compound -> CBOR -> back; the id written by the code equals the id documented in tools/gen/data.toml; a CBOR value hand-built from the documented id decodes to the same unit; ids pairwise distinct; every identifier pinned in harness/data/ids_pinned.json — what data written by the pinned build contains — still decodes, to a unit with the same singular/plural name, equal to the unit its documented name parses to) and every shipped constant (decode, re-encode, decode, equal, byte-identical, unit ids inside the registry); generated: compounds of 1-6 units with prefixes -24..24 and powers -9..9 built from documented ids, rationals up to 2000 bits through CBOR and JSON, constants; non-trivial = derived unit / compound with >=2 units incl. a derived one / rational with >64-bit numerator / constant; distinct by case");
+    if std::env::var("VERIF_EMIT_PINS").is_ok() {
+        emit_pins();
+        std::process::exit(0);
+    }
     let corpus: Vec<(String, Case)> = load_corpus("C17");
     let cases: Vec<Case> = corpus.into_iter().map(|c| c.1).collect();
     ctx.run_list("corpus", &cases, check, |c| to_json(c));
@@ -252,6 +320,9 @@ pub fn run_check(ctx: &Ctx) {
     }
     let units: Vec<Case> = v.units.iter().map(|u| Case::Unit { variant: u.variant.clone() }).collect();
     ctx.run_list("registry-units", &units, check, |c| to_json(c));
+    let pins = pinned_ids();
+    ctx.put("pinned_identifiers", json!(pins.len()));
+    ctx.run_list("pinned-identifiers", &pins, check, |c| to_json(c));
     let n_ship = facts().all.len() as u64;
     ctx.run_enum("shipped-constants", n_ship, |i| Some(Case::Shipped { index: i as usize }), check, |c| to_json(c));
     ctx.exhaustive.store(true, std::sync::atomic::Ordering::Relaxed);
